@@ -143,6 +143,44 @@ def build(spec, name=None):
     return FlowCal.io.FCSData(path)
 
 
+def derived_from_used_parent(spec, lo=1, how='slice'):
+    """A sample that is a channel sub-selection of a parent which has already been asked by name.
+
+    Returns (sub_sample, sub_spec): the parent is built with `lo` extra leading channels, every parent channel is
+    looked up by name, then columns lo.. are taken with a slice (`how='slice'`) or a position list.  sub_spec describes
+    exactly the selected channels, so models computed from it stay valid."""
+    D = len(spec['widths'])
+    parent = dict(spec)
+    extra_names = ['XP%d-A' % i for i in range(lo)]
+
+    def ext(key, fill):
+        v = spec.get(key)
+        return ([fill] * lo + list(v)) if v else None
+    parent['widths'] = [spec['widths'][0]] * lo + list(spec['widths'])
+    parent['ranges'] = [spec['ranges'][0]] * lo + list(spec['ranges'])
+    parent['names'] = extra_names + list(spec.get('names') or ['P%d' % (i + 1) for i in range(D)])
+    for key, fill in (('pne', '0,0'), ('png', None), ('pnv', None), ('pns', None), ('col_kind', 'uniform'), ('vmax', None)):
+        e = ext(key, fill)
+        if e is not None:
+            parent[key] = e
+    if spec.get('events') is not None:
+        parent['events'] = [[0] * lo + list(r) for r in spec['events']]
+    if spec.get('specials'):
+        parent['specials'] = [[r, c + lo, v] for r, c, v in spec['specials']]
+    # the extra leading columns shift the pseudo-random stream: fix the cells of the kept columns explicitly
+    if spec.get('events') is None:
+        cells = expand(spec)
+        parent['events'] = [[0] * lo + list(r) for r in cells]
+        parent.pop('specials', None)
+    d = build(parent)
+    for nm in d.channels:
+        d[:0, nm]
+        d.range(nm)
+        d.resolution(nm)
+    sub = d[:, lo:] if how == 'slice' else d[:, list(range(lo, lo + D))]
+    return sub
+
+
 # --------------------------------------------------------------------------------------------------
 # model metadata
 # --------------------------------------------------------------------------------------------------
